@@ -196,7 +196,7 @@ _EXCEL_NOTE = ('Bounded in the table layout (one instrument configuration: FSC-H
                'library steps uninterpreted with the exception classes of their own contracts; plot=False, verbose=False; '
                'process_beads_table, add_*_stats and generate_histograms_table are covered by the bounded stand-in only.')
 PROPS['C10'] = {
-    'contracts': ['contracts.excel:ProcessSamples'],
+    'contracts': ['contracts.excel:ProcessSamples', 'contracts.excel:GenerateHistograms'],
     'bounded': True,
     'level': 'other',
     'explanation': 'Proved for an arbitrary row of a Samples table with any number of rows (loop cut, arbitrary prior state) and symbolic '
@@ -277,18 +277,26 @@ PROPS['C02'] = {
                  'generated-element arrays, NaN-carrying arrays) + bounded check of the end-to-end statistical clauses',
 }
 PROPS['C14'] = {
-    'contracts': ['contracts.fcsio:TextSegmentEarlyExits'],
+    'contracts': ['contracts.fcsio:TextSegmentEarlyExits', 'contracts.fcsio:TextSegmentTokens'],
     'bounded': True,
     'level': 'other',
-    'explanation': 'BOUNDED for the tokenizer itself. Proved only (file model, symbolic offsets and content): a supplemental segment without '
-                   'delimiter, a segment shorter than declared and a primary segment not starting with the delimiter raise ValueError; an '
-                   'empty declared extent gives ({}, None). Equivalence of the backward delimiter-run scan with the left-to-right escaping '
-                   'rule needs an induction over the run structure of strings that neither z3 nor cvc5 carries, and the planned '
-                   'bounded-symbolic run (opaque atoms) was not built; the clause is decided by the bounded stand-in: every string over '
-                   '{delimiter, a, b} up to length 9 (quick) / 12 (thorough) as primary and supplemental segment against an independent '
-                   'left-to-right tokenizer, plus encode/decode round trips through whole files.',
-    'level_note': 'bounded stand-in decides; only the early exits are proved.',
-    'technique': 'bounded exhaustive check of the real function (stated bound) + contract-based proof of the early-exit paths',
+    'timeout_ms': 10000,
+    'explanation': 'BOUNDED for the tokenizer (never counted as proved). Proved without bound (file model, symbolic offsets and content): '
+                   'a supplemental segment without delimiter, a segment shorter than declared and a primary segment not starting with '
+                   'the delimiter raise ValueError; an empty declared extent gives ({}, None). BOUNDED-SYMBOLIC (contract '
+                   'TextSegmentTokens, symbolic execution of the real function): every segment made of up to 7 tokens separated by up '
+                   'to 6 delimiter occurrences, with ARBITRARY token contents (any strings without the delimiter, any lengths, every '
+                   'emptiness pattern), any delimiter character, primary and supplemental, is read exactly as a left-to-right '
+                   'reference reading of the escaping rule (written from the property text) reads it, refused exactly when that '
+                   'reading fails, and the tolerated ending is read with a warning -- except for the two recorded findings (text after '
+                   'the last delimiter is ignored; an even run of four or more closing delimiters). The unbounded equivalence of the '
+                   'backward run scan with the left-to-right rule needs an induction over the run structure of strings that neither '
+                   'solver carries. BOUNDED-CONCRETE: every string over {delimiter, a, b} up to length 9 (quick) / 12 (thorough), and '
+                   'encode/decode round trips through whole files.',
+    'level_note': 'bounded stand-ins decide (symbolic in the token contents up to 6 delimiter occurrences; exhaustive concrete strings); '
+                  'only the early exits are proved.',
+    'technique': 'bounded-symbolic execution of the real tokenizer against a reference reading (bound: delimiter occurrences) + bounded '
+                 'exhaustive check of the real function + contract-based proof of the early-exit paths',
 }
 
 NOT_APPLICABLE = {}
